@@ -26,8 +26,14 @@ HOSTS = ('real', 'darwin', 'scrambled', 'bsdlike', 'windowslike', 'real-hashseed
          'real-python-O', 'real-python-OO')
 
 
+SCRATCH = [None]       # working directory and HOME of the host runs (so that relative and per-user paths are harmless)
+
+
 def run_host(host, seed):
     env = dict(os.environ)
+    if SCRATCH[0]:
+        env['HOME'] = os.path.join(SCRATCH[0], 'home')
+        env['XDG_CONFIG_HOME'] = os.path.join(SCRATCH[0], 'home', '.config')
     if isinstance(host, tuple):
         # ('env', NAME, VALUE): the real host with one more environment variable (see run_one)
         env[host[1]] = host[2]
@@ -49,7 +55,7 @@ def run_host(host, seed):
         flags = [host.rsplit('-', 1)[1].join(('-', ''))]
         host = 'real'
     p = subprocess.run([sys.executable] + flags + ['-m', 'vlib.hostswap', host, str(seed)], env=env, capture_output=True,
-                       text=True, timeout=600)
+                       text=True, timeout=600, cwd=os.path.join(SCRATCH[0], 'cwd') if SCRATCH[0] else None)
     if p.returncode != 0:
         raise core.Inconclusive(f'host {host} workload failed: {p.stderr[-600:]}')
     return json.loads(p.stdout)
@@ -112,9 +118,18 @@ def run(ctx):
     res = core.Result()
     if ctx.tier == 'thorough':
         HOSTS = HOSTS + tuple(f'real-hashseed-{k}' for k in (2, 3, 5, 99))
-    for k in range(ctx.pick(1, 12)):
-        run_one(res, ctx, ctx.seed * 1000 + k)
-        res.count('workload_seeds')
+    import shutil
+    import tempfile
+    SCRATCH[0] = tempfile.mkdtemp(prefix='verif-c18-host-')
+    os.makedirs(os.path.join(SCRATCH[0], 'cwd'))
+    os.makedirs(os.path.join(SCRATCH[0], 'home', '.config'))
+    try:
+        for k in range(ctx.pick(1, 12)):
+            run_one(res, ctx, ctx.seed * 1000 + k)
+            res.count('workload_seeds')
+    finally:
+        shutil.rmtree(SCRATCH[0], ignore_errors=True)
+        SCRATCH[0] = None
     res.counters['hosts'] = len(HOSTS)
     res.assumptions += ['other platforms are modelled by substituting the interpreter\'s errno/signal/socket tables, '
                         'os.strerror, sys.platform, TZ and locale before the repository is imported',
@@ -142,7 +157,7 @@ def run_one(res, ctx, seed):
             for name in env_reads[:6]:
                 for value in (junk.name, '1', 'ascii'):
                     other = run_host(('env', name, value), seed)
-                    for k in ('_env_reads', '_clock_reads', '_file_opens'):
+                    for k in ('_env_reads', '_clock_reads', '_file_opens', '_file_probes'):
                         other.pop(k, None)
                     res.count('environment_perturbations')
                     diff = [k for k in outs['real'] if other.get(k) != outs['real'][k]]
@@ -162,7 +177,7 @@ def run_one(res, ctx, seed):
                                                               len(file_opens))
     if clock_reads:
         later = run_host(('env', 'VERIF_CLOCK_SHIFT', str(400 * 86400 + 7 * 3600)), seed)
-        for k in ('_env_reads', '_clock_reads', '_file_opens'):
+        for k in ('_env_reads', '_clock_reads', '_file_opens', '_file_probes'):
             later.pop(k, None)
         diff = [k for k in outs['real'] if later.get(k) != outs['real'][k]]
         res.count('clock_perturbations')
@@ -171,6 +186,43 @@ def run_one(res, ctx, seed):
                           f'7 hours later the sections {diff[:4]} of the same workload differ', {'reads': clock_reads})
     if file_opens:
         res.notes['host_files_opened_by_the_repository'] = file_opens[:10]
+    # paths the repository asks the file system about (exists / stat / listdir / open): those that lie in the scratch
+    # working directory or HOME of the run are created - as a file holding table-like text, and as a directory holding
+    # such a file - and the workload must print the same
+    probes = sorted({k for o in outs.values() for k in o.pop('_file_probes', [])})
+    res.counters['paths_probed_by_the_repository'] = max(res.counters.get('paths_probed_by_the_repository', 0), len(probes))
+    if probes:
+        res.notes['paths_probed_by_the_repository'] = probes[:10]
+    inside = [p for p in probes if SCRATCH[0] and p.startswith(SCRATCH[0] + os.sep)]
+    for as_dir in (False, True):
+        made = []
+        try:
+            for p in inside[:8]:
+                if os.path.lexists(p):
+                    continue
+                os.makedirs(p if as_dir else os.path.dirname(p), exist_ok=True)
+                target = os.path.join(p, 'trace.codes') if as_dir else p
+                with open(target, 'w') as fd:
+                    fd.write('# site file\n0x2f000004 SITE_private_point\n0x40c000c BSC_site_read\n[section]\nkey = 1\n')
+                made.append(p)
+            if made:
+                other = run_host('real', seed)
+                for k in ('_env_reads', '_clock_reads', '_file_opens', '_file_probes'):
+                    other.pop(k, None)
+                res.count('file_system_perturbations')
+                diff = [k for k in outs['real'] if other.get(k) != outs['real'][k]]
+                if diff:
+                    res.violation('c18-depends-on-a-host-file', f'the repository looks for {made[:3]}; when that path exists '
+                                  f'(as a {"directory" if as_dir else "file"}) the sections {diff[:4]} of the same workload '
+                                  f'differ', {'paths': made})
+                    break
+        finally:
+            import shutil
+            for p in made:
+                if as_dir:
+                    shutil.rmtree(p, ignore_errors=True)
+                elif os.path.exists(p):
+                    os.unlink(p)
     base = outs['real']
     for section, val in base.items():
         items = val.items() if isinstance(val, dict) else enumerate(val) if isinstance(val, list) else [(0, val)]
